@@ -36,7 +36,7 @@ ANCHORS = [
 
 def run(ctx):
     ctx.require("parse.class", 10)
-    run_kind(ctx, OP, "class", ctx.n(4000, 120000), knobs(hostile_strings=not ctx.quick(), p_doc_states_default=0.15, p_hyphen_tokens=0.3, p_float_typed_int_default=0.25))
+    run_kind(ctx, OP, "class", ctx.n(4000, 120000), knobs(hostile_strings=not ctx.quick(), p_doc_states_default=0.15, p_hyphen_tokens=0.3, p_float_typed_int_default=0.25, p_return_str_value=0.2))
 
 
 def replay(payload):
